@@ -215,7 +215,10 @@ def run_property(prop, tier, seed):
     lemma_fail = [ob.name for ob, r in failed if ob.fn.startswith("lemma")]
     # ---------------------------------------------------------------- canaries
     t_can = time.time()
-    can = canary.run_canaries(keys, timeout_ms=4000, limit_per_fn=1 if tier == "quick" else None) if not failed else []
+    # (functions with an open obligation -- a listed finding -- are left out: every mutant of them would count as killed)
+    bad_fns = {ob.fn for ob, _r in failed}
+    can = canary.run_canaries([k for k in keys if k not in bad_fns], timeout_ms=4000,
+                              limit_per_fn=1 if tier == "quick" else None) if not violations and not lemma_fail else []
     t_can = time.time() - t_can
     surv = [c for c in can if not c["killed"] and c["status"] == "survived"]
     # ---------------------------------------------------------------- evidence
